@@ -96,8 +96,6 @@ env_proof! {
     fn c01_truncate() {
         let (mut rl, mut m) = mk();
         let idx: u8 = kani::any();
-        // truncate(0) after a purge is C16's known finding (index - 1 underflow)
-        kani::assume(!(idx == 0 && m.purged.is_some()));
         let ok = is_ok(rl.truncate(idx as u64));
         let tgt = m.truncate_target(idx as u64);
         assert!(ok == tgt.is_some(), "truncate accepted/rejected differently from the reference log");
